@@ -10,6 +10,8 @@ MANIFEST_ENTRY = {
     "note": "Exhaustive below the bound, sampled above it; independent matching oracle. Max-flow correctness for arbitrary graphs is out of reach of the VC generator. Nothing here is counted as proved.",
     "technique": "bounded exhaustive run-time contract checking of the real function (stand-in for deductive verification, labelled bounded)",
 }
+MANIFEST_ENTRY["text"] += ' Bounded end-to-end stand-in (run-time contract, never counted as proved): contracts/grid_upload.py runs the real Uploader, server selector, Encoder, checker/verifier and repairer against real StorageServers on disk (contracts/real_grid.py) with read-only, full and failing servers and pre-existing shares, and compares results with ground truth read from the disks and with a reference encoding.'
+MANIFEST_ENTRY["technique"] += "; plus bounded end-to-end run-time scenario contracts on an in-process grid of the real components (stand-in, labelled bounded)"
 EXPLANATION = "Exhaustive enumeration of small layouts + seeded random larger ones."
 TRUSTED = ["the independent matching oracle in contracts/bounded_lib.py"]
 ASSUMPTIONS = []
